@@ -77,6 +77,13 @@ BLOCKING_PRIMITIVES = {
     'putrequest': 'HTTPConnection.putrequest connects to the peer (auto_open)',
     'endheaders': 'HTTPConnection.endheaders connects/sends to the peer',
 }
+# send-side primitives: they block once the peer stops reading and the
+# kernel buffers are full.  Judged on the relay-attempt entries only (C14
+# bounds every blocking step of a relay attempt; on the server side the
+# property is about what the remote side SENDS).
+BLOCKING_SEND_PRIMITIVES = {
+    'sendall': 'socket.sendall blocks while the peer does not read',
+}
 # the same, but only inside the named modules (names too common elsewhere)
 BLOCKING_PRIMITIVES_IN = {
     ('slimta.relay.http', 'read'): 'HTTPResponse.read reads the response '
